@@ -4,9 +4,14 @@ V = os.path.dirname(os.path.dirname(os.path.abspath(__file__)))
 CHECKS = {
  'C01': dict(
    technique='Coq proof (induction over arbitrary valid schedules + rooted junction-tree induction) over a hand-written line-by-line model of belief_propagation on a zero-sum-free semifield + exact-rational differential correspondence',
-   text='Theorem C01_exact (Props/C01.v): for every semifield instance, domain, tree, potentials (zeros = -inf included), total, and EVERY schedule that respects the message dependencies, the division-based run of the model of GraphicalModel.belief_propagation returns at every clique the brute-force marginal of the normalised product of the potentials scaled to the total, provided the tree passes the computable junction-tree conditions (recursive running intersection for every root), which the extracted model evaluates on every tree the code builds. Schedule independence is a corollary. The very same Gallina term is extracted and run on exact non-negative rationals against the code (random linear extensions of the schedule, permuted attribute orders, -inf and 2^+-3000 potentials).',
+   text='Theorem C01_exact (Props/C01.v): for every semifield instance, domain, tree, potentials (zeros = -inf included), total, and EVERY schedule that respects the message dependencies, the division-based run of the model of GraphicalModel.belief_propagation returns at every clique the brute-force marginal of the normalised product of the potentials scaled to the total, provided the tree passes the computable junction-tree conditions (recursive running intersection for every root), which the extracted model evaluates on every tree the code builds. Schedule independence is a corollary. The very same Gallina term is extracted and run on exact non-negative rationals against the code (random linear extensions of the schedule, permuted attribute orders, -inf and 2^+-1200 potentials).',
    design='4/C01',
    note='Trusted: Coq kernel; extraction+driver; harness. Axiom: functional_extensionality_dep only (tables are functions on assignments). Hypothesis kept in the theorem: the junction-tree conditions rootokb (computed per case on the code\'s tree; textbook RIP implies them) and structural side conditions (symmetric duplicate-free neighbour lists, scopes inside the domain), evaluated as structb. float64 log-space vs exact rationals compared at 1e-9.'),
+ 'C02': dict(
+   technique='Coq proof (variable elimination correct for every order; both project branches = marginal of the explicit joint; krondot; totals) over hand-written models + exact-rational differential correspondence of every query path',
+   text='Props/C02.v: over any commutative semiring variable elimination equals the iterated sum of the product for EVERY elimination list; the uncached project path and (through C01_exact) the cached path both return the marginal of the single explicit joint scaled to the total, so the cache is irrelevant; answers sum to the total; krondot is the Kronecker query applied to the joint. Each run compares every code path (project cached/uncached in any requested order incl. () and full, calculate_many_marginals, krondot, datavector, after save+load) under random cache-populating interleavings with the exact joint marginal computed by the extracted model.',
+   design='4/C02',
+   note='partial: the chaining of conditionals in calculate_many_marginals along tree paths is compared with the joint per run, not proved; pickling is exercised, not modelled. Axiom: functional_extensionality_dep. Cached-path theorem inherits the junction-tree conditions of C01.'),
  'C07': dict(
    technique='Coq proof over a model TRANSLATED from mechanisms/cdp2adp.py on every run (Python ast -> Gallina) + validation of the translation against the running code',
    text='Gen/Cdp2adp_gen.v is regenerated from the source on every run and Props/C07.v is re-checked against it: for every number type (floats included) the returned rho/eps pass the code\'s own test (sound) and the other bisection end fails it; on the reals cdp_delta equals the published Renyi-order bound at an alpha in [1.01, amax0], the tested expression is the derivative of the log-bound (Coquelicot), is increasing, the optimum is bracketed at every iteration with width (amax0-1.01)/2^n, and the bound is monotone in rho and eps for every order. The generated functions are executed on floats against the real functions, and a property oracle (exact Gaussian delta, golden-section optimum, monotonicity, round trips) searches the code for a failing input.',
